@@ -4,7 +4,7 @@
    the occupancy split, the serial wrap, and "no made-up value".  The refinement read_pdb (render recs) = denote recs is
    established by correspondence only (see the level note). *)
 From Coq Require Import List Ascii String ZArith QArith Bool Lia.
-From PV Require Import Base.Sx Base.Text Base.Float Base.Group Spec.Hier Spec.PdbSpec Model.AddAtom Model.PdbLex Model.PdbParse Proofs.Decimal Proofs.C01just Proofs.C01line Proofs.C01group Proofs.C01sim Gen.PdbColumns Spec.PdbColumnsDoc.
+From PV Require Import Base.Sx Base.Text Base.Float Base.Group Spec.Hier Spec.PdbSpec Model.AddAtom Model.PdbLex Model.PdbParse Proofs.Decimal Proofs.C01just Proofs.C01line Proofs.C01group Proofs.C01sim Proofs.C01annot Gen.PdbColumns Spec.PdbColumnsDoc.
 Import ListNotations.
 
 (* 1. inside a model: exactly one chain per chain id, in order of first appearance (and likewise one residue per key, one
@@ -132,6 +132,13 @@ Theorem C01_numeral_field_is_the_specified_value : forall neg ds1 ds2, all_digit
   finite_f (dec t) = true -> parse_f64_field t = Some (dec t).
 Proof. exact numeral_field_is_dec. Qed.
 
+(* MODRES: the pass of the reader model that applies the MODRES records does what the record specification says, on every
+   structure, for a record as the lexer hands it over (trimmed texts, valid annotation texts) - found or not found *)
+Theorem C01_modres_pass_is_the_specification : forall p ln resname chain num ins std comment,
+  lexed resname chain ins std comment ->
+  fst (apply_modres p ln resname chain num ins std comment) = modres_step p (RModres resname chain num ins std comment).
+Proof. exact modres_pass_is_the_specification. Qed.
+
 Print Assumptions C01_one_chain_per_id.
 Print Assumptions C01_occupancy_split_adds_up.
 Print Assumptions C01_wrap_continues.
@@ -148,3 +155,4 @@ Print Assumptions C01_reader_atom_run.
 Print Assumptions C01_reader_step_simulates_walk.
 Print Assumptions C01_reader_refines_walk_on_coordinate_runs.
 Print Assumptions C01_numeral_field_is_the_specified_value.
+Print Assumptions C01_modres_pass_is_the_specification.
